@@ -92,10 +92,13 @@ def build_seeds(run):
 
     seeds = []
 
-    def add(sid, ext, data, entries=("load",)):
+    def add(sid, ext, data, entries=("load",), companions=None):
         if isinstance(data, str):
             data = data.encode()
-        seeds.append({"id": sid, "ext": ext, "data": bytes(data), "entries": list(entries)})
+        # companions: other files the model names (material library, texture, buffer); they are
+        # written next to the model whenever it is loaded by name
+        seeds.append({"id": sid, "ext": ext, "data": bytes(data), "entries": list(entries),
+                      "companions": {k: bytes(v if isinstance(v, bytes) else str(v).encode()) for k, v in (companions or {}).items()}})
 
     ico = trimesh.creation.icosphere(subdivisions=0)
     ico.visual.face_colors = np.tile([200, 100, 50, 255], (len(ico.faces), 1)).astype(np.uint8)
@@ -135,7 +138,21 @@ def build_seeds(run):
     add("made:obj_mtllib", "obj",
         b"mtllib model.mtl\nusemtl m\nv 0 0 0\nv 1 0 0\nv 0 1 0\nvt 0 0\nvt 1 0\nvt 0 1\nf 1/1 2/2 3/3\n", ("load", "load_scene"))
     try:
+        # a model made of several files: OBJ + material library + texture image
+        from PIL import Image
+
+        bio = io.BytesIO()
+        Image.fromarray(np.arange(48, dtype=np.uint8).reshape(4, 4, 3), "RGB").save(bio, format="PNG")
+        add("made:obj_mtl_png", "obj",
+            b"mtllib model.mtl\nusemtl m\nv 0 0 0\nv 1 0 0\nv 0 1 0\nvt 0 0\nvt 1 0\nvt 0 1\nf 1/1 2/2 3/3\n",
+            ("load", "load_scene", "load_mesh"),
+            companions={"model.mtl": b"newmtl m\nKd 0.5 0.5 0.5\nmap_Kd tex.png\n", "tex.png": bio.getvalue()})
+    except Exception as e:
+        run.skip("multi-file obj seed failed: %s" % type(e).__name__)
+    try:
         files = scene.export(file_type="gltf")
+        add("export:gltf_files", "gltf", files["model.gltf"], ("load", "load_scene"),
+            companions={k: v for k, v in files.items() if k != "model.gltf"})
         add("export:gltf_zip", "zip", trimesh.util.compress(files), ("load", "load_scene"))
         add("export:gltf_json_only", "gltf", files["model.gltf"], ("load",))
     except Exception as e:
@@ -407,6 +424,9 @@ def build_cases(run, seeds):
             if op == "ref" or (op == "zipinner" and args[1] == "ref"):
                 # only a load by name has a directory to resolve other files in
                 routes = [(seed["entries"][h % len(seed["entries"])], "path")]
+            if seed.get("companions") and (op != "valid") and h % 2 == 0:
+                # a model with companion files only has them when loaded by name
+                routes += [(seed["entries"][h % len(seed["entries"])], "path")]
             if op == "valid":
                 routes += [(e, "path") for e in seed["entries"]]
                 # by name with the type spelled out, and as a pathlib.Path
@@ -425,7 +445,8 @@ def build_cases(run, seeds):
 
 def run_children(run, seeds, cases, work):
     """Run all cases in child processes; yield result records joined with their case."""
-    seed_payload = [{"id": s["id"], "ext": s["ext"], "hex": s["data"].hex()} for s in seeds]
+    seed_payload = [{"id": s["id"], "ext": s["ext"], "hex": s["data"].hex(),
+                     "companions": {k: v.hex() for k, v in s.get("companions", {}).items()}} for s in seeds]
     env = dict(os.environ)
     env["PYTHONPATH"] = os.pathsep.join([p for p in sys.path if p]) if not env.get("PYTHONPATH") else env["PYTHONPATH"]
     # round-robin: every batch holds cases of every seed and operator class, so a run that is
